@@ -392,7 +392,7 @@ impl World {
             let m = match open_with(&ad, caps) {
                 Outcome::Ok(m) => m,
                 o => {
-                    res.viol("C08", "open-empty-failed", o.describe());
+                    res.viol(if matches!(o, Outcome::Panic(_)) { "C08" } else { "C03" }, "open-empty-failed", o.describe());
                     res.aborted = Some(format!("cannot open replica {}", i));
                     set_caps((16, 16));
                     Melda::new(store::plain_mem()).unwrap()
@@ -1171,7 +1171,7 @@ impl World {
                         self.res.viol("C11", "self-meld-wrote-items", format!("{:?}", items));
                     }
                 }
-                Outcome::Err(e) => self.res.viol("C08", "self-meld-returned-error", e),
+                Outcome::Err(e) => self.res.viol("C01", "self-meld-returned-error", e),
                 Outcome::Panic(p) => {
                     self.panic_viol("C08", "self-meld", &p);
                     self.reps[i].dead = true;
@@ -1203,7 +1203,7 @@ impl World {
                     for r in [r1, r2] {
                         match r {
                             Outcome::Ok(_) => {}
-                            Outcome::Err(e) => self.res.viol("C08", "twin-handle-meld-returned-error", e),
+                            Outcome::Err(e) => self.res.viol("C01", "twin-handle-meld-returned-error", e),
                             Outcome::Panic(p) => self.panic_viol("C08", "twin-handle-meld", &p),
                         }
                     }
@@ -1236,7 +1236,7 @@ impl World {
                 self.res.count("meld_items", items.len() as u64);
                 self.res.feat_add("melds", 1);
             }
-            Outcome::Err(e) => self.res.viol("C08", "meld-returned-error", e),
+            Outcome::Err(e) => self.res.viol("C01", "meld-returned-error", e),
             Outcome::Panic(p) => {
                 self.panic_viol("C12", "meld", &p);
                 self.reps[i].dead = true;
@@ -1776,7 +1776,7 @@ impl World {
                             self.reps[i].behind = false;
                             self.reps[i].clean = o;
                         }
-                        Outcome::Err(e) => self.res.viol("C08", "meld-refresh-returned-error", e),
+                        Outcome::Err(e) => self.res.viol("C01", "meld-refresh-returned-error", e),
                         Outcome::Panic(p) => {
                             self.panic_viol("C08", "meld+refresh", &p);
                             self.reps[i].dead = true;
@@ -1788,14 +1788,7 @@ impl World {
             let twice = self.r.chance(25);
             let res = {
                 let m = &self.reps[i].m;
-                guard(|| {
-                    m.replay_stage(&stg)?;
-                    if twice {
-                        // replaying the same export again changes nothing
-                        m.replay_stage(&stg)?;
-                    }
-                    Ok(())
-                })
+                guard(|| m.replay_stage(&stg))
             };
             if moved_on {
                 self.res.feat_add("replays_onto_newer_state", 1);
@@ -1819,6 +1812,25 @@ impl World {
                         self.res.viol("C15", "stage-export-differs-after-replay", format!("{:?} vs {:?}", before.stage.as_ref().map(|s| trunc(s, 400)), st2.stage.as_ref().map(|s| trunc(s, 400))));
                     }
                     self.res.count("c15_replays", 1);
+                    if twice {
+                        // replaying the same export a second time is not something C15 speaks about: it must
+                        // return (C08); whether it is a no-op is only counted
+                        let again = {
+                            let m = &self.reps[i].m;
+                            guard(|| m.replay_stage(&stg))
+                        };
+                        if let Outcome::Panic(p) = &again {
+                            self.panic_viol("C08", "replay_stage", p);
+                            self.reps[i].dead = true;
+                            return;
+                        }
+                        let st3 = observe(&self.reps[i].m);
+                        if !again.is_ok() || st3.s_value(true) != before.s_value(true) {
+                            self.res.count("c15_second_replay_not_a_noop", 1);
+                            self.reps[i].last_doc = None;
+                        }
+                        self.res.count("c15_second_replays", 1);
+                    }
                 }
                 Outcome::Err(e) => self.res.viol("C15", "replay-returned-error", e),
                 Outcome::Panic(p) => {
@@ -1849,7 +1861,8 @@ impl World {
                     self.res.feat_add("maintenance_with_array_conflict", 1);
                 }
             }
-            Outcome::Err(e) => self.res.viol("C08", "snapshot-returned-error", e),
+            // an error is an answer (C08) and changes nothing (checked above for Ok): counted only
+            Outcome::Err(_) => self.res.count("snapshot_answered_with_error", 1),
             Outcome::Panic(p) => {
                 self.panic_viol("C12", "stage_full_snapshot", &p);
                 self.reps[i].dead = true;
@@ -1998,7 +2011,8 @@ impl World {
             self.res.trace.push(format!("r{}.{} -> {}", i, name, res.describe()));
             self.res.feat_add("refusal_calls", 1);
             match res {
-                Outcome::Ok(()) => self.res.viol("C08", &format!("ill-targeted-call-succeeded-{}", what), name.to_string()),
+                // no property says these calls must be refused (C08 asks for a value or an error): counted only
+                Outcome::Ok(()) => self.res.count("ill_targeted_calls_answered_ok", 1),
                 Outcome::Err(_) => {}
                 Outcome::Panic(p) => {
                     self.panic_viol("C08", name, &p);
@@ -2007,8 +2021,13 @@ impl World {
                 }
             }
             let after = observe(&self.reps[i].m);
-            if after.s_value(true) != before.s_value(true) || after.stage != before.stage {
+            // queries and a resolution in favour of the current winner express no edit (C12, C07); a malformed
+            // stage export is not well-formed input, so what it leaves behind is not judged
+            if what != 4 && (after.s_value(true) != before.s_value(true) || after.stage != before.stage) {
                 self.res.viol("C12", "refused-call-changed-state", format!("{}: {}", name, before.diff(&after)));
+            }
+            if what == 4 {
+                self.reps[i].last_doc = None;
             }
             return;
         }
@@ -2029,8 +2048,9 @@ impl World {
         match res {
             Outcome::Ok(_) => {}
             Outcome::Err(e) => {
+                // an error is an answer as far as C08 goes: counted only
                 if e != "object_has_no_winner" {
-                    self.res.viol("C08", &format!("{}-returned-error", name), e);
+                    self.res.count("lowlevel_calls_answered_with_unexpected_error", 1);
                 }
             }
             Outcome::Panic(p) => {
@@ -2096,7 +2116,7 @@ impl World {
                 rep.m.reload()
             });
             if !ok.is_ok() {
-                self.res.viol("C08", "final-unstage-reload-failed", ok.describe());
+                self.res.viol(if matches!(ok, Outcome::Panic(_)) { "C08" } else { "C15" }, "final-unstage-reload-failed", ok.describe());
                 return;
             }
         }
@@ -2219,7 +2239,7 @@ impl World {
         let m = match open_with(&ad, caps) {
             Outcome::Ok(m) => m,
             o => {
-                self.res.viol("C08", "fork-open-failed", o.describe());
+                self.res.viol(if matches!(o, Outcome::Panic(_)) { "C08" } else { "C03" }, "fork-open-failed", o.describe());
                 return None;
             }
         };
